@@ -143,7 +143,11 @@ def print_assumptions(vo_source):
         if c.startswith("Closed under"):
             res[n] = []
         else:
-            ax = re.findall(r"^([A-Za-z_][A-Za-z0-9_'.]*)\s*:", c, re.M)
+            ax = [a for a in re.findall(r"^([A-Za-z_][A-Za-z0-9_'.]*)\s*:", c, re.M)
+                  if a != "Axioms" and a not in names]
+            # names printed on their own line (type wrapped onto the next line)
+            ax += [a for a in re.findall(r"^([A-Za-z_][A-Za-z0-9_'.]*)\s*\n\s+:", c, re.M)
+                   if a not in names and a not in ax]
             res[n] = ax
     return res, log
 
@@ -208,6 +212,8 @@ def coq_eval(preamble, exprs, name="cases", timeout=600, raw=False):
     preamble: Gallina source placed before the evals (Require lines, definitions).
     Returns list of decoded strings (or raw printed terms)."""
     os.makedirs(SCRATCH, exist_ok=True)
+    # unique per call: several checks (and workers) evaluate concurrently
+    name = re.sub(r"[^A-Za-z0-9_]", "_", name) + "_%d_%08x" % (os.getpid(), random.getrandbits(32))
     path = os.path.join(SCRATCH, name + ".v")
     with open(path, "w") as f:
         f.write("Set Printing Width 1000000.\nSet Printing Depth 10000000.\n")
@@ -217,6 +223,16 @@ def coq_eval(preamble, exprs, name="cases", timeout=600, raw=False):
             f.write(f"Eval vm_compute in (777777%N, case_{i}).\n")
     rc, o, e = sh(["coqc", "-noglob", "-Q", os.path.join(VERIF, "theories"), "Ink", path],
                   cwd=SCRATCH, timeout=timeout)
+    for ext in (".v", ".vo", ".vok", ".vos", ".glob"):
+        try:
+            if rc == 0 or ext != ".v":
+                os.remove(os.path.join(SCRATCH, name + ext))
+        except FileNotFoundError:
+            pass
+    try:
+        os.remove(os.path.join(SCRATCH, "." + name + ".aux"))
+    except FileNotFoundError:
+        pass
     if rc != 0:
         raise RuntimeError("coq_eval failed: " + (e or o)[-3000:])
     parts = re.split(r"=\s*\(777777(?:%N)?,", o)[1:]
@@ -275,7 +291,12 @@ def harness_dir():
 def build_harness(features=(), release=False, timeout=900, binname="inkdrive"):
     """(Re)build the harness against the repository's working tree.  Returns path of the binary."""
     hd = harness_dir()
-    shutil.copyfile(os.path.join(REPO, "Cargo.lock"), os.path.join(hd, "Cargo.lock"))
+    lock = os.path.join(REPO, "Cargo.lock")
+    if not os.path.exists(lock):            # Cargo.lock is git-ignored: a worktree has none
+        lock = "/repo/Cargo.lock"
+    shutil.copyfile(lock, os.path.join(hd, "Cargo.lock"))
+    if REPO != "/repo" and not os.path.exists(os.path.join(REPO, "Cargo.lock")):
+        shutil.copyfile(lock, os.path.join(REPO, "Cargo.lock"))
     env = harness_env()
     tdir = TARGET + _repo_tag() + ("_" + "_".join(features) if features else "")
     env["CARGO_TARGET_DIR"] = tdir
